@@ -108,8 +108,9 @@ def check(ctx: Ctx) -> None:
         if isinstance(n, ast.Assign) and isinstance(n.targets[0], ast.Name) and isinstance(n.value, ast.Subscript) \
                 and norm(n.value.value) == 'vtChannels' and norm(n.value.slice) == sort_idx:
             sorted_by = n.targets[0].id
-    from ..astutil import expand, single_locals, mutated_names
-    _defs = single_locals(fn)
+    from ..astutil import expand, single_locals, mutated_names, same_def_locals
+    _defs = dict(single_locals(fn))
+    _defs.update(same_def_locals(fn))            # `idx = sort[...]` before the loop and again inside it
     ex = lambda e: expand(e, _defs, mutated_names(fn) | {sort_idx or ''})
     rets = [n for n in walk_no_nested(fn.node) if isinstance(n, ast.Return)]
     if not (sort_idx and sorted_by and len(rets) == 1 and isinstance(rets[0].value, ast.Tuple)):
@@ -141,6 +142,11 @@ def check(ctx: Ctx) -> None:
     fresh = any(isinstance(x, ast.Call) and 'argsort' in norm(x.func) for x in ast.walk(idx))
     if not through_sort and sort_idx in names and not fresh:
         ctx.error('C12.b: the scatter index `%s` uses the argsort index in a form that is not `%s[<positions>]`: cannot tell' % (norm(idx)[:60], sort_idx))
+    assigned = {x.id for x in ast.walk(fn.node) if isinstance(x, ast.Name) and isinstance(x.ctx, ast.Store)}
+    opaque_locals = sorted(n for n in names if n in assigned and n not in _defs and n != sort_idx)
+    if not through_sort and not fresh and opaque_locals and any(isinstance(x, ast.Subscript) for x in ast.walk(idx)) is False:
+        ctx.error('C12.b: the scatter index `%s` is a local (%s) whose definition cannot be followed (bound several times to different '
+                  'expressions): cannot tell' % (norm(idx)[:50], opaque_locals))
     ok = through_sort
     ctx.obligation('C12.b', 'doWF:unsort', ok, detail)
     if not ok:
